@@ -227,7 +227,10 @@ def run_case(mod, case, known_sigs=()):
 
 def make_case(mod, prop, scenario, verif_seed, i, tier):
     rs = derive(verif_seed, prop, scenario, i)
-    case = mod.gen(random.Random(rs), scenario, tier)
+    if hasattr(mod, "gen_indexed") and scenario in getattr(mod, "INDEXED_SCENARIOS", ()):
+        case = mod.gen_indexed(scenario, i, tier)      # index-derived (seed-independent) enumeration scenario
+    else:
+        case = mod.gen(random.Random(rs), scenario, tier)
     case["scenario"] = scenario
     case["run_seed"] = rs
     case["index"] = i
